@@ -19,6 +19,7 @@ import (
 	"io"
 	"net"
 	"net/http"
+	"net/textproto"
 	"sort"
 	"strconv"
 	"strings"
@@ -113,17 +114,44 @@ type upstream struct {
 	sent    []*sentFrame
 }
 
+// canonHdr is the view an HTTP server has of the application headers (X-*) of a
+// request: names canonicalised (header names are case-insensitive), the lines of
+// names that canonicalise equal merged in the order the client writes them
+// (http.Header.Write sorts by the raw name), values as written on the wire (line
+// breaks become spaces, surrounding blanks are trimmed), every value quoted so
+// that ["a","b"], ["a, b"] and ["a b"] stay different.
 func canonHdr(h http.Header) string {
-	var ks []string
+	var raw []string
 	for k := range h {
-		if strings.HasPrefix(k, "X-") {
-			ks = append(ks, k)
+		raw = append(raw, k)
+	}
+	sort.Strings(raw)
+	merged := map[string][]string{}
+	var names []string
+	for _, k := range raw {
+		ck := textproto.CanonicalMIMEHeaderKey(k)
+		if !strings.HasPrefix(ck, "X-") || len(h[k]) == 0 {
+			continue
+		}
+		if _, ok := merged[ck]; !ok {
+			names = append(names, ck)
+		}
+		for _, v := range h[k] {
+			v = strings.NewReplacer("\r", " ", "\n", " ").Replace(v)
+			merged[ck] = append(merged[ck], strings.Trim(v, " \t"))
 		}
 	}
-	sort.Strings(ks)
+	sort.Strings(names)
 	var b strings.Builder
-	for _, k := range ks {
-		b.WriteString(k + "=" + strings.Join(h[k], ",") + ";")
+	for _, k := range names {
+		b.WriteString(k + "=[")
+		for i, v := range merged[k] {
+			if i > 0 {
+				b.WriteString(",")
+			}
+			b.WriteString(strconv.Quote(v))
+		}
+		b.WriteString("];")
 	}
 	return b.String()
 }
